@@ -1,6 +1,7 @@
 import LekkerVerif.Model.Sweep
 import LekkerVerif.Generated.Tables
 import LekkerVerif.Properties.C18
+import LekkerVerif.Core.ShapeIndep
 
 /-! # C04 — a parameter sweep equals the stack of the individual scalar solves -/
 
@@ -176,3 +177,42 @@ theorem C04_batch {K : Type} [Scalar K] (As Bs Cs : List (SMat K)) (hl : As.leng
       As[i].add? Bs[i] = .ok Cs[i] := C18_batch As Bs Cs hl h
 
 end Sweep
+
+
+/-! ### one control flow for the whole sweep
+
+All points of a sweep share the pins, index maps and wiring and differ only in the matrix values (`St.SameShape`).  The
+bookkeeping of `Structure.join` and of the elimination loop - which pair is merged next, the surviving pins, their indices,
+the connection tables - is a function of the shape alone, so running the loop once on the batched matrices is running it on
+every slice; the only value-dependent outcome of a merge is a singular inner system. -/
+
+section ControlFlow
+variable {F : Type} [Scalar F]
+
+/-- C04 (scheduled loop): two runs of the elimination on lists of structures that differ at most
+in their matrices (two slices of a sweep), driven by a schedule that reads shape data only, end in
+structures with the same id, pins, index map, connection table, neighbour list and members. -/
+theorem C04_control_flow_value_independent (sched : List (St F) → Option (Nat × Nat))
+    (hs : ∀ l l', Solve.SameShapes l l' → sched l = sched l') (fuel : Nat)
+    {live live' : List (St F)} (h : Solve.SameShapes live live') (fresh : Nat) {s s' : St F}
+    (e : Solve.loopWith sched fuel live fresh = .ok s)
+    (e' : Solve.loopWith sched fuel live' fresh = .ok s') : s.SameShape s' :=
+  Solve.loopWith_sameShape sched hs fuel h fresh e e'
+
+/-- C04 (heuristic loop): the pin-count heuristic picks its pairs from shape data only. -/
+theorem C04_control_flow_value_independent_heuristic (fuel : Nat)
+    {live live' : List (St F)} (h : Solve.SameShapes live live') (fresh : Nat) {s s' : St F}
+    (e : Solve.loop fuel live fresh = .ok s) (e' : Solve.loop fuel live' fresh = .ok s') :
+    s.SameShape s' :=
+  Solve.loop_sameShape fuel h fresh e e'
+
+/-- C04 (single merge): on a same-shape slice a merge that succeeded can only fail by a singular
+star product. -/
+theorem C04_join_failure_value_dependent_only_singular {a a' b b' : St F} (ha : a.SameShape a')
+    (hb : b.SameShape b') (n : Nat) {c : St F} (h : St.join a b n = .ok c) :
+    (∃ c', St.join a' b' n = .ok c' ∧ c.SameShape c') ∨ St.join a' b' n = .error .singular := by
+  rcases St.join_ok_of_sameShape_ne_singular ha hb n h with ⟨c', hc'⟩ | hs
+  · exact Or.inl ⟨c', hc', St.join_sameShape ha hb n h hc'⟩
+  · exact Or.inr hs
+
+end ControlFlow
